@@ -13,7 +13,7 @@ ID = "C18"
 LEVEL = "exploration"
 RULE = ("Cases: class in {RandomLineAccessFile, MemoryMappedRandomLineAccessFile, MapAccessFile with dict mapping, MapAccessFile with "
         "index-file mapping}; file of distinct multi-byte lines in size class small / 40 KB / 200 KB; the object is opened in the parent "
-        "(which optionally reads before forking); 1..4 forked children with programmes of 1..6 reads each (index reads; for the sequence classes also fresh iterations over the first n lines and slices), the parent optionally "
+        "(which optionally reads before forking); 1..4 forked children with programmes of 1..8 reads each (random index reads, or keys in the order of the lines - short runs and runs of 130..320 keys, longer than a read-ahead buffer; for the sequence classes also fresh iterations over the first n lines and slices), the parent optionally "
         "reading concurrently in a gated thread, optionally a grandchild forked by a child after its first read; a generated schedule "
         "grants single seek/readline steps to the processes. Oracle: every value read in every process equals the reference line (for "
         "MapAccessFile the line with its terminator), the parent's read after all children finished is correct, (whether a child's descriptor shares the parent's open file description is measured by a dup + lseek probe and reported as a label only). "
@@ -121,12 +121,23 @@ def run_case(case, ctx):
             return lines[:a[1]] if a[0] == "iter" else lines[a[1]:a[2]]
         return exp(a)
 
-    progs = [[res_i(v) for v in pr] for pr in case["children"]]
-    parent_prog = [res_i(v) for v in case["parent_prog"]] if case.get("parent_prog") else None
+    def expand(pr):
+        out_ = []
+        for v in pr:
+            if isinstance(v, list) and v and v[0] == "range":      # ["range", start, count]: keys in the order of the lines
+                out_.extend(range(v[1], v[1] + v[2]))
+            else:
+                out_.append(v)
+        return out_
+
+    progs = [[res_i(v) for v in expand(pr)] for pr in case["children"]]
+    parent_prog = [res_i(v) for v in expand(case["parent_prog"])] if case.get("parent_prog") else None
+    if any(len(pr) > 100 for pr in progs):
+        ctx.label("long-sequential-programme")
     grand = None
     if case.get("grand") and progs:
         gi = case["grand"][0] % len(progs)
-        grand = (gi, [key_of(res_i(v)) for v in case["grand"][1]])
+        grand = (gi, [key_of(res_i(v)) for v in expand(case["grand"][1])])
     if any(isinstance(a, list) for pr in progs + ([parent_prog] if parent_prog else []) for a in pr):
         ctx.label("iteration-or-slice-in-forked-process")
     use_probe = kind in ("buffered", "map-dict", "map-index") and parent_prog is None and grand is None
@@ -157,7 +168,7 @@ def run_case(case, ctx):
     name = {"buffered": "RandomLineAccessFile", "mmap": "MemoryMappedRandomLineAccessFile"}.get(kind, "MapAccessFile")
     expected = [[exp_of(i) for i in pr] for pr in progs]
     if grand is not None:
-        expected.append([exp_of(res_i(v)) for v in case["grand"][1]])
+        expected.append([exp_of(res_i(v)) for v in expand(case["grand"][1])])
     if parent_prog is not None:
         expected.append([exp_of(i) for i in parent_prog])
     who = ["child %d" % i for i in range(len(progs))] + (["grandchild"] if grand is not None else []) + (["parent"] if parent_prog is not None else [])
@@ -208,7 +219,12 @@ def short(x):
 
 def strategies(tier):
     big = tier == "thorough"
-    prog = st.lists(st.one_of(st.integers(0, 3000), st.integers(0, 3000), st.integers(-3000, -1)), min_size=1, max_size=6)
+    rnd_prog = st.lists(st.one_of(st.integers(0, 3000), st.integers(0, 3000), st.integers(-3000, -1)), min_size=1, max_size=6)
+    # keys requested in the order of the lines (right behind what the parent read before forking, or from anywhere)
+    seq_prog = st.tuples(st.sampled_from([1, 1, 0, 2, 40, 500]), st.integers(2, 8)).map(lambda t: list(range(t[0], t[0] + t[1])))
+    # long runs of consecutive keys: longer than what one read-ahead buffer holds, so that buffer refills happen in mid-run
+    long_prog = st.tuples(st.sampled_from([1, 1, 0, 25]), st.sampled_from([130, 220, 320])).map(lambda t: [["range", t[0], t[1]]])
+    prog = st.one_of(rnd_prog, rnd_prog, rnd_prog, seq_prog, seq_prog, long_prog)
     case = st.fixed_dictionaries({
         "cls": st.sampled_from(["buffered", "buffered", "mmap", "map-dict", "map-index"]),
         "size": st.sampled_from(["small", "40k", "200k", "200k"]),
